@@ -493,6 +493,7 @@ impl<T: Ingest> Check for ExtendSplit<T> {
                 .par_iter()
                 .map(|w| {
                     let mut out = Vec::new();
+                    let mut sigs: std::collections::HashSet<String> = std::collections::HashSet::new();
                     for k in 0..=w.len() {
                         for pc in [false, true] {
                             for br in [false, true] {
@@ -502,7 +503,9 @@ impl<T: Ingest> Check for ExtendSplit<T> {
                                     Ok(e) => {
                                         for mut v in (self.judge)(w, &e.observe_()) {
                                             v.sig = format!("{}:built-by-extend", v.sig);
-                                            out.push((v, path.clone()));
+                                            if sigs.insert(v.sig.clone()) {
+                                                out.push((v, path.clone()));
+                                            }
                                         }
                                     }
                                 }
